@@ -590,9 +590,10 @@ Definition lstep (st : lst) (e : renv) : option (lst * renv) :=
       | DHang => if loop_ctx_done e then Some (LBackoff, e) else None
       end
   | LConnect =>
-      (* BaseClient.Connect's select: CONNACK / ctxConnect.Done() / connClosed *)
+      (* BaseClient.Connect's select: CONNACK / ctxConnect.Done() / connClosed; ctxConnect is also cancelled
+         when c.disconnected is closed (fix 515978c, reconnclient.go:92-100) *)
       if r_ack e then Some (LUp, set_r_first e true)
-      else if loop_ctx_done e || r_timeout e || r_base_done e then Some (LCloseWait, e)
+      else if loop_ctx_done e || r_timeout e || r_base_done e || r_disc e then Some (LCloseWait, e)
       else None
   | LUp =>
       if r_base_done e then (if r_base_err e then Some (LCloseWait, e) else Some (LExit, e))
@@ -651,7 +652,7 @@ Inductive rphase :=
 | RD_Never           (* Disconnect: Connect never called *)
 | RD_AfterFailed     (* Disconnect: after a Connect whose dials all failed and that was cancelled (cbf3ad0) *)
 | RD_DuringDialFail  (* Disconnect: while Connect (another goroutine) is in the dial/back-off cycle *)
-| RD_WaitConnAck     (* Disconnect: while the first CONNECT is unanswered *)
+| RD_WaitConnAck     (* Disconnect: while the first CONNECT is unanswered (aborts the handshake: fix 515978c) *)
 | RD_Connected       (* Disconnect: connected *)
 | RD_BackoffAfterLoss. (* Disconnect: connection lost, later dials fail, loop in dial/back-off cycle *)
 
@@ -680,8 +681,8 @@ Definition is_rconnect (p : rphase) : bool :=
 
 Definition rvalid (p : rphase) (z : rcause) : bool :=
   match p, z with
-  | (RC_DialFail | RC_DialHang | RC_AckWithheld | RD_Never | RD_WaitConnAck), (RZCancel | RZDeadline) => true
-  | (RD_AfterFailed | RD_DuringDialFail | RD_Connected | RD_BackoffAfterLoss), RZNone => true
+  | (RC_DialFail | RC_DialHang | RC_AckWithheld | RD_Never), (RZCancel | RZDeadline) => true
+  | (RD_AfterFailed | RD_DuringDialFail | RD_WaitConnAck | RD_Connected | RD_BackoffAfterLoss), RZNone => true
   | _, _ => false
   end.
 
